@@ -30,7 +30,11 @@ def exec_SF(t):
             if z is x:
                 return ['INPLACE_RETURNED_OPERAND']
         else:
-            z = (x << n) if d == 'l' else (x >> n)
+            cnt = n
+            if mode != 'expand' and (nx + n + cs[0]) % 2:
+                # the count as the NumPy integer it is when it comes out of a table of per-stage shifts (narrowest type that holds it)
+                cnt = (np.int8 if n < 128 else np.int16)(n) if (nx + cs[-1]) % 2 else (np.uint8 if n < 256 else np.uint16)(n)
+            z = (x << cnt) if d == 'l' else (x >> cnt)
         unchanged = (fmt_of(x), codes_of(x)) == before
         st = z.status
     except Exception as e:
